@@ -526,6 +526,9 @@ pub(crate) mod util {
 /// would exhaust the stack instead of dying on it.
 const MAX_BRACKET_NESTING: usize = 256;
 
+const PARSER_CALLS_BASE: usize = 2_000_000;
+const PARSER_CALLS_PER_BYTE: usize = 2_000;
+
 /// Returns the line and column of the first bracket that is nested deeper than `limit`,
 /// ignoring brackets inside string literals and comments.
 fn first_bracket_deeper_than(input_str: &str, limit: usize) -> Option<(usize, usize)> {
@@ -600,6 +603,14 @@ pub(crate) fn root_node_from_str(input_str: &str, user_data: Rc<AssocFileData>) 
             user_data.get_source_file_name()
         )
     }
+
+    // pest does not memoize: on a malformed input (an unclosed `[` or `{` in front of nested function
+    // literals) it parses the same text again at every level of nesting, 2^depth steps in all. Programs
+    // that parse need a few hundred rule calls per byte at most; past this budget pest reports
+    // "call limit reached" at the position it got to instead of running for minutes.
+    pest::set_call_limit(std::num::NonZeroUsize::new(
+        PARSER_CALLS_BASE + PARSER_CALLS_PER_BYTE * input_str.len(),
+    ));
 
     let x = util::parse_with_userdata_features(Rule::file, input_str, user_data);
 
